@@ -79,3 +79,22 @@ package unary
 
 //@ # ---------------------------------------------------------------- lock discipline (C09)
 //@ guarded_by offsetCache.tables mu
+
+//@ # ---------------------------------------------------------------- delete offsets (C04)
+//@ # The byte position where a delete starts (resp. ends) inside a domain is that of the first
+//@ # sample at or after the timestamp, i.e. the number of samples before it. From an index distance
+//@ # approximation [Lower, Upper] over [domainStart, ts) that number is: Upper when the
+//@ # approximation is exact or only the target falls between samples; Lower when only the domain
+//@ # start does (index cut-off); the midpoint when both do (cases 1-4 in the source comment).
+//@ spec func SpecSamplesBefore(a index.DistanceApproximation) int64 = __ite(a.Lower == a.Upper || a.StartExact, a.Upper, __ite(a.EndExact, a.Lower, (a.Lower + a.Upper) / 2))
+//@ ignorepkg github.com/synnaxlabs/cesium/internal/index
+//@ ignore func (db *DB) index() index.Index
+//@ ignore func (db *DB) resolveByteOffset() telem.Size
+//@ func (db *DB) calculateStartOffset(ctx context.Context, domainStart telem.TimeStamp, ts telem.TimeStamp) (off telem.Size, snapped telem.TimeStamp, err error)
+//@   overflow off
+//@   atcall resolveByteOffset sampleOffset == SpecSamplesBefore(approxDist)
+//@   modifies nothing
+//@ func (db *DB) calculateEndOffset(ctx context.Context, domainStart telem.TimeStamp, ts telem.TimeStamp) (off telem.Size, snapped telem.TimeStamp, err error)
+//@   overflow off
+//@   atcall resolveByteOffset sampleOffset == SpecSamplesBefore(approxDist)
+//@   modifies nothing
